@@ -543,6 +543,7 @@ func (s *configurationStore) store(ctx context.Context, store _map.Map[string, *
 	prunedValues := tree.PrunePathMap(values, true)
 	transaction := store.Transaction(ctx)
 	for _, pv := range values {
+		pv := pv
 		entry, err := store.Get(ctx, pv.Path)
 		if err != nil {
 			err = errors.FromAtomix(err)
